@@ -124,7 +124,9 @@ static inline void readline_push_current_line_to_history(struct readline *rl)
 
 static inline void readline_load_history_line(struct readline *rl)
 {
-    rl->lastsize = rl->line.len;
+    // Distance from the start of the replaced line to the terminal cursor:
+    // the terminal moves left by this amount and erases to the end of line.
+    rl->lastsize = rl->line.cursor;
 
     if (rl->curhist == 0)
     {
